@@ -44,7 +44,7 @@ TRUSTED = ['harness/c06_world.py: mock member channels, scripted random, virtual
            'independent Python monitor in harness/props/c06.py']
 ASSUMPTIONS = ['math.exp(x) is in [0,1] for x <= 0 (the weight is an input of the model, checked 0<=w<=1 on every sample)',
                'float comparisons avg/size >= max_load, <= min_load agree with the exact rational comparison; cases where '
-               'the float quotient rounds across the bound are not sent to the model (counted as tie_skipped, expected 0)',
+               'the float quotient rounds across the bound are not sent to the model (counted as tie_skipped_cases; rare: e.g. 1.0/5 rounds up to the float 0.2)',
                'member channel factories, Open and Close do not raise synchronously; then `ar.exception` in _Jitter is '
                'never set (model branch exn=true is proved about but cannot be produced by the implementation)',
                'a freshly created member channel is in state Idle',
@@ -201,7 +201,7 @@ def _mk(seed, i, kind):
 
 
 def gen_cases(tier, seed):
-  n = 700 if tier == 'quick' else 9000
+  n = 600 if tier == 'quick' else 5000
   kinds = ['random', 'random', 'ramp', 'ramp', 'steady', 'fail', 'fail', 'jitter']
   out = [_mk(seed, i, kinds[i % len(kinds)]) for i in range(n)]
   if tier == 'thorough':
@@ -426,6 +426,7 @@ def monitor(case, obs):
 
   prev = obs['init']['snap']
   partition('after open', prev)
+  outstanding = 0        # requests handed to a member and not yet returned (counted at the heap's get/put hooks)
   for i, (op, st) in enumerate(zip(case['ops'], obs['steps'])):
     tag = 'op %d %s' % (i, op['op'])
     snap = st['snap']
@@ -452,10 +453,16 @@ def monitor(case, obs):
       avg = None
       if kind == 'onget' and st.get('endpoint') is not None and st['endpoint'] not in [c[0] for c in cur]:
         add('traffic-to-inactive-member', '%s: request sent to %s, active %s' % (tag, st['endpoint'], [c[0] for c in cur]))
+      if kind == 'onget':
+        outstanding += 1
+      elif kind == 'onput':
+        outstanding -= 1
       for e in evs:
         if e[0] == 'ema':
           avg = e[4]
           pv, sample = e[1], e[2]
+          if kind in ('onget', 'onput') and sample != outstanding:
+            add('smoothed-sample-not-outstanding', '%s: the EMA was fed %r but %d requests are outstanding' % (tag, sample, outstanding))
           if pv is not None:
             a, b = min(pv, sample), max(pv, sample)
             if not (a - 1e-9 * (1 + abs(a)) <= avg <= b + 1e-9 * (1 + abs(b))):
@@ -481,7 +488,7 @@ def monitor(case, obs):
             shrank += 1
             if len(cur) < min(mn_size, members_n):
               add('contraction-below-min-size', '%s: contraction left %d active, min_size %d, members %d' % (tag, len(cur), mn_size, members_n))
-      if kind in ('onget', 'onput') and avg is not None and size_before > 0 and band_ok:
+      if kind in ('onget', 'onput') and avg is not None and size_before > 0 and band_ok and idle_before is not None:
         load = Fraction(avg) / size_before
         f = avg / size_before
         tie = ((f >= cfg['max_load']) != (load >= hi)) or ((f <= cfg['min_load']) != (load <= lo))
